@@ -250,7 +250,12 @@ func c18(c *core.Ctx) {
 				errsReturned := 0
 				for _, r := range core.Returns(fn) {
 					for _, l := range core.ErrLeaves(r.Results[0], r) {
-						if cr, idx, ok := core.CallResult(l.V); ok && ((cr == marshal && idx == 1) || cr == unmarshal) && l.Class == core.ErrNonNil {
+						cr, idx, ok := core.CallResult(l.V)
+						if !ok {
+							continue
+						}
+						// the Marshal error on its != nil edge; the Unmarshal error on its != nil edge or returned as it is
+						if (cr == marshal && idx == 1 && l.Class == core.ErrNonNil) || cr == unmarshal {
 							errsReturned++
 						}
 					}
